@@ -371,7 +371,107 @@ def rule_l6(ctx, facts):
             ctx.inst("L6", b, "guards stay paired with their collections", b.span, ok, "%d (collection, guard) pairs checked" % n if ok else why)
 
 
+def key_eq_calls(body):
+    """calls of the user's key equality (PartialEq::eq on a type parameter) one of whose operands is the `key` field of a node"""
+    from .affine import canon_place
+    out = []
+    fl = flow(body)
+    for c in body.calls:
+        cal = c.callee
+        if not cal or cal.get("trait") != "std::cmp::PartialEq" or body.is_cleanup(c.b):
+            continue
+        if cal["kind"] != "param_trait_method" and not cal.get("self_ty", {}).get("base", "").startswith("param:"):
+            continue
+        for a in c.args:
+            l = op_root(a)
+            if l is None:
+                continue
+            if any(fs and fs[-1][1] == "key" and fs[-1][0].startswith("node::") for base, fs in fl.ref_fields(l)):
+                out.append(c)
+                break
+    return out
+
+
+def rule_l8(ctx, facts):
+    """no update or lookup result is attributed to another key: a node is treated as `the entry for this key` only on the true edge of the
+    user's key equality (and its value slot is only touched there)"""
+    n = 0
+    for b in facts.bodies:
+        if b.kind == "Closure":
+            continue
+        eqs = key_eq_calls(b)
+        if not eqs:
+            continue
+        fl = flow(b)
+        true_edges = []
+        for blk in range(len(b.blocks)):
+            cd = cond_of(b, blk)
+            if cd and cd["kind"] == "call" and cd["call"].b in {e.b for e in eqs}:
+                true_edges.append((blk, cd["true"]))
+            elif cd and cd["kind"] == "bool":
+                pass
+        if not true_edges:
+            # the comparison result may be combined (&&) through a temporary: find switches on locals that derive from the eq call
+            for blk in range(len(b.blocks)):
+                t = b.term(blk)
+                if t["k"] == "switch" and op_root(t["on"]) is not None:
+                    if any(x.b in {e.b for e in eqs} for x in fl.call_roots(op_root(t["on"])) if x is not None) and len(t["targets"]) == 1 and t["targets"][0][0] == "0":
+                        true_edges.append((blk, t["otherwise"]))
+        # (a) every access to a node's value slot in this body happens after a key match
+        for c in b.calls:
+            if b.is_cleanup(c.b):
+                continue
+            k = is_reclaim_atomic(c)
+            if k in ("load", "swap", "store", "compare_exchange") and ("node::Node", "value") in receiver_field(b, c, 0):
+                n += 1
+                ok = bool(true_edges) and dominated_by_edge(b, c.point, true_edges)
+                if not ok:
+                    # the node was delivered by a finder (a function returning the matching node), which is judged itself
+                    rl = op_root(c.args[0])
+                    finders = [x for x in fl.call_roots(rl) if x is not None and x.resolved in facts.by_id and not is_link_load(x)
+                               and "node::BinEntry" in (facts.by_id[x.resolved].sig or "").split("->")[-1] and "reclaim::Shared<" in (facts.by_id[x.resolved].sig or "").split("->")[-1]]
+                    if finders:
+                        ctx.inst("L8", b, "%s of a node's value" % k, c.span, True, "node delivered by the finder %s" % strip_generics(finders[0].resolved))
+                        continue
+                ctx.inst("L8", b, "%s of a node's value" % k, c.span, ok,
+                         "only on the true edge of the key comparison" if ok else
+                         "the value slot of a node is accessed at %s on a path on which that node's key was not compared equal to the key of the operation: "
+                         "an update or result can be attributed to another key" % c.span)
+        # (b) finders: a non-null result is only produced after a key match
+        if b.sig and "-> reclaim::Shared<" in b.sig and "node::BinEntry" in b.sig.split("->")[-1]:
+            for bi, blk in enumerate(b.blocks):
+                if blk["cleanup"]:
+                    continue
+                for si, st in enumerate(blk["stmts"]):
+                    if st["k"] == "assign" and st["dst"]["local"] == 0 and not st["dst"]["proj"] and "use" in st["rv"]:
+                        src = op_root(st["rv"]["use"])
+                        if src is None:
+                            continue
+                        roots = fl.roots_at(src, Point(bi, si))
+                        calls = [b.call_at(r[1]) for r in roots if r[0] == "call"]
+                        # null results and results of nested finders are not judged here
+                        if calls and all(callee_str(x).endswith("Shared::null") or (x.resolved in facts.by_id and "-> reclaim::Shared<" in (facts.by_id[x.resolved].sig or ""))
+                                         and not is_link_load(x) for x in calls):
+                            continue
+                        n += 1
+                        ok = bool(true_edges) and dominated_by_edge(b, Point(bi, si), true_edges)
+                        ctx.inst("L8", b, "node returned as found", st["span"], ok,
+                                 "only on the true edge of the key comparison" if ok else
+                                 "a node is returned as the match at %s although its key was not compared equal on that path" % st["span"])
+                c = b.call_at(bi)
+                if c is not None and c.dst_local() == 0 and callee_str(c).endswith("Shared::from"):
+                    n += 1
+                    ok = bool(true_edges) and dominated_by_edge(b, c.point, true_edges)
+                    ctx.inst("L8", b, "node returned as found", c.span, ok,
+                             "only on the true edge of the key comparison" if ok else
+                             "a node is returned as the match at %s although its key was not compared equal on that path" % c.span)
+    if n < 10:
+        ctx.fail_closed("L8: expected at least 10 value-slot accesses / found-node returns guarded by key comparisons, found %d" % n)
+
+
 def run(ctx, facts):
+    ctx.rule("L8", "a node's value slot is accessed, and a node is returned as found, only on the true edge of the user's key equality for that node", floor=10)
+    rule_l8(ctx, facts)
     ctx.rule("L1", "every bin-lock region re-validates the head (pointer identity with a fresh Table::bin(T,i)) before any mutation", floor=11,
              floor_note="transfer x2, clear x2, put x2, compute_if_present x2, replace_node x2, treeify_bin x1")
     ctx.rule("L2", "bin contents are written only under the bin lock / on private nodes / by the empty-bin CAS / in teardown", floor=30)
